@@ -458,6 +458,11 @@ def _step(s: Store, op: dict, exc_log: list):
                 h - np.ones(h.shape)
             elif what == "imul_overflow":
                 h *= 1e200        # the square of the factor is not a finite double: python raises OverflowError
+            elif what == "fill_n_inf":
+                # (adaptive histograms only) a batch whose minimum lies left of the bins and whose maximum is infinite: no grid
+                # index exists for it, the batch is refused -- and the bins must not have grown for the minimum meanwhile
+                lo = float(h.bin_left_edges[0]) if h.bin_count else 0.0
+                h.fill_n([lo - 2.5 * float(h.binning.bin_width), np.inf])
             else:
                 raise KeyError(what)
             exc_log.append(f"invalid:{what} was ACCEPTED")
